@@ -10,7 +10,7 @@ import (
 
 func init() {
 	register(&Rule{
-		ID: "R09.1", Props: []string{"C09"}, Engine: "flow (taint)",
+		ID: "R09.1", Props: []string{"C09", "C16"}, Engine: "flow (taint)",
 		Text:  "no unvalidated bytes escape a CAS buffer: in every exported consumption method of casReaderBuffer, casChunkReaderBuffer and casErrorHandlingBuffer the raw stream (the r field, or the result of toUnvalidated*/newErrorHandling*Reader) reaches the caller, a writer or a conversion helper only through newCASValidatingReader / newCASValidatingChunkReader (directly or through the type's toValidated* helper); raw values may only be closed, or handed out by the toUnvalidated* methods themselves",
 		Floor: 13, MustExist: true, Run: runR091,
 	})
